@@ -1041,15 +1041,15 @@ package saml
 //@ contract (*Endpoint).UnmarshalXML
 //@ requires[cfg] d: d != nil
 //@ -- each location is checked, and replaced, by its own filtered value (C15: parsing preserves http(s) endpoints)
-//@ assert@call[C14,C15] checkEndpointLocation #1 (b string, l string) checks_location: b == m.Binding && l == m.Location
-//@ assert@call[C14,C15] checkEndpointLocation #2 (b string, l string) checks_response_location: b == m.Binding && l == m.ResponseLocation
+//@ assert@call[C14,C15] checkEndpointLocation #1 (binding string, location string) checks_location: binding == m.Binding && location == m.Location
+//@ assert@call[C14,C15] checkEndpointLocation #2 (binding string, location string) checks_response_location: binding == m.Binding && location == m.ResponseLocation
 //@ ensures[C14] location: err == nil ==> locationOK(m.Binding, m.Location)
 //@ ensures[C14] response_location: err == nil && m.ResponseLocation != "" ==> locationOK(m.Binding, m.ResponseLocation)
 //@ contract (*IndexedEndpoint).UnmarshalXML
 //@ requires[cfg] d: d != nil
-//@ assert@call[C14,C15] checkEndpointLocation #1 (b string, l string) checks_location: b == m.Binding && l == m.Location
-//@ assert@call[C14,C15] checkEndpointLocation #2 (b string, l string) checks_response_location:
-//@    b == m.Binding && m.ResponseLocation != nil && l == *m.ResponseLocation
+//@ assert@call[C14,C15] checkEndpointLocation #1 (binding string, location string) checks_location: binding == m.Binding && location == m.Location
+//@ assert@call[C14,C15] checkEndpointLocation #2 (binding string, location string) checks_response_location:
+//@    binding == m.Binding && m.ResponseLocation != nil && location == *m.ResponseLocation
 //@ ensures[C14] location: err == nil ==> locationOK(m.Binding, m.Location)
 //@ ensures[C14] response_location: err == nil && m.ResponseLocation != nil ==> locationOK(m.Binding, *m.ResponseLocation) && *m.ResponseLocation != ""
 
